@@ -103,6 +103,10 @@ def _inside(node, anc) -> bool:
 
 _S = "svg"
 VARIANTS = [
+    Variant("a shape whose bounding box covers the view box is replaced by the view box rectangle",
+            [Edit(_S, "SVG.clip_to_viewbox", "            shape = shape.as_path().absolute(inplace=True)\n            shape.update_path(\n",
+                  "            shape = shape.as_path().absolute(inplace=True)\n            if isct == view_box:\n                shape.update_path(clip_path.as_cmd_seq(), inplace=True)\n                updates.append((idx, el, shape))\n                continue\n            shape.update_path(\n")],
+            [("R-GUARD.clip-viewbox", "clip_to_viewbox")]),
     Variant("control point bounds", [Edit("svg_pathops", "bounding_box", ".bounds", ".controlPointBounds")], [("R-SITE.bounds-api", "bounding_box")]),
     Variant("union uses max for the start", [Edit("geometric_types", "Rect.union", "x, y = min(self.x, other.x), min(self.y, other.y)", "x, y = max(self.x, other.x), min(self.y, other.y)")], [("R-POLY.rect", "union")]),
     Variant("skip when not None", [Edit(_S, "SVG.clip_to_viewbox", "            if bbox == isct:\n                continue", "            if isct is not None and bbox.w == isct.w:\n                continue")], [("R-GUARD.clip-viewbox", "clip_to_viewbox")]),
